@@ -638,7 +638,12 @@ def strategies():
         lambda t: {"name": "pre-topic", "subject": t[0], "options": t[1]})
     declared_topic = st.tuples(st.sampled_from(["news-service", "ex.1"]), st.sampled_from(["sports", "k"]), st.sampled_from(["topic", "direct", "fanout"]), st.booleans()).map(
         lambda t: {"name": t[0], "subject": t[1], "options": {"node": {"x-declare": {"exchange": t[0], "exchange-type": t[2], "durable": t[3]}}}})
-    cons = st.one_of(plain_q, plain_q, bound_q, topic_sub, declared_topic).map(lambda a: {"family": "address", "role": "consumer", "address": a})
+    # the documented subscription with a queue of its own name: the address names the exchange, x-declare names exchange and queue, x-bindings bind that queue (whose name differs from the address's) one to three times
+    named_sub = st.tuples(st.sampled_from(["news-service", "ex.1"]), st.sampled_from(["sports", "k"]), st.sampled_from(["topic", "direct"]), st.sampled_from(["news-queue", "sub1"]),
+                          st.lists(st.sampled_from(["sports", "k", "a.b", ""]), min_size=1, max_size=3, unique=True), st.booleans()).map(
+        lambda t: {"name": t[0], "subject": t[1], "options": {"node": {"x-declare": dict({"exchange": t[0], "exchange-type": t[2], "queue": t[3]}, **({"durable": True} if t[5] else {})),
+                                                                       "x-bindings": [{"exchange": t[0], "queue": t[3], "key": k} for k in t[4]]}}})
+    cons = st.one_of(plain_q, plain_q, bound_q, topic_sub, declared_topic, named_sub).map(lambda a: {"family": "address", "role": "consumer", "address": a})
     prod_addr = st.one_of(
         qname.map(lambda n: {"name": n, "options": None}),
         st.just({"name": "pre-topic", "options": None}),
